@@ -655,10 +655,21 @@ impl TypeSpace {
 
             match maybe_replace {
                 None => {
-                    let type_name = if let RefKey::Def(name) = ref_name {
-                        Name::Required(name.clone())
-                    } else {
-                        Name::Unknown
+                    let type_name = match (&ref_name, &schema) {
+                        (RefKey::Def(name), _) => Name::Required(name.clone()),
+                        // The root type is named by its title; unnamed
+                        // subschemas derive their names from it.
+                        (
+                            RefKey::Root,
+                            Schema::Object(schemars::schema::SchemaObject {
+                                metadata: Some(metadata),
+                                ..
+                            }),
+                        ) => metadata
+                            .title
+                            .clone()
+                            .map_or(Name::Unknown, Name::Suggested),
+                        (RefKey::Root, _) => Name::Unknown,
                     };
                     self.convert_ref_type(type_name, schema, type_id)?
                 }
